@@ -132,3 +132,30 @@ def loadBase (parseP : CPs → Option P) (A : PArith P) (isAlpha : Nat → Bool)
 def allLowerMasks (one : P) (n : Nat) : List (LGroup P) := [⟨[List.replicate n 0x4c], one⟩]
 
 end Pcfg
+
+namespace Pcfg
+variable {P : Type}
+
+/-- `lib_scorer/grammar_io._load_from_file`: a dict `value ↦ probability`, here as the list of
+assignments in file order (a later assignment to the same key wins); `none` = returned False -/
+def scorerLoop (parseP : CPs → Option P) : List CPs → Option (List (CPs × P))
+  | [] => some []
+  | line :: rest =>
+    if line.any isSurrogate then none
+    else
+      match pySplit 0x09 (rstripWs line) with
+      | value :: probText :: _ =>
+        match parseP probText, scorerLoop parseP rest with
+        | some p, some more => some ((value, p) :: more)
+        | _, _ => none
+      | _ => none
+
+def scorerLoad (parseP : CPs → Option P) (text : CPs) : Option (List (CPs × P)) :=
+  scorerLoop parseP (codecLines text)
+
+/-- the trainer's writer `calculate_and_save_counter`: `str(value) + '\t' + str(prob) + '\n'` -/
+def writeLine (v probText : CPs) : CPs := v ++ [0x09] ++ probText ++ [0x0a]
+
+def writeFile (items : List (CPs × CPs)) : CPs := (items.map fun it => writeLine it.1 it.2).flatten
+
+end Pcfg
